@@ -252,7 +252,7 @@ class DynamicStructureFactor:
         symbols = self._primitive.symbols
         masses = self._primitive.masses
         pos = self._primitive.scaled_positions
-        phase = np.exp(2j * np.pi * np.dot(pos, G_vector))
+        phase = np.exp(-2j * np.pi * np.dot(pos, G_vector))
         eigvec_atoms = eigvec.reshape(-1, 3)
         val = 0
         for i, m in enumerate(masses):
